@@ -18,7 +18,7 @@ def content_key(data):
     return "%016x#%d" % (fnv(data), len(data))
 
 
-def make_info(rng, idx, paths, marker=None, malformed=False, agree_starts=False, branch_only=0.0, repeat_sf=0.3):
+def make_info(rng, idx, paths, marker=None, malformed=False, agree_starts=False, branch_only=0.0, repeat_sf=0.3, fn_only=0.15):
     """a small unique lcov file about 1-2 of the shared source paths"""
     out = "TN:item%d%s\n" % (idx, (" " + marker) if marker else "")
     chosen = rng.sample(paths, rng.randrange(1, min(3, len(paths)) + 1))
@@ -32,6 +32,13 @@ def make_info(rng, idx, paths, marker=None, malformed=False, agree_starts=False,
             for l in sorted(rng.sample(range(1, 9), rng.randrange(1, 3))):
                 for n in range(rng.randrange(1, 4)):
                     out += "BRDA:%d,0,%d,%s\n" % (l, n, rng.choice(["-", "1", "4"]))
+            out += "end_of_record\n"
+            continue
+        if rng.random() < fn_only:
+            # a record that names functions only (FN / FNDA, no DA, no BRDA): legal lcov
+            for f in rng.sample(["f", "g", "h", "café", "2,3#origin"], rng.randrange(1, 3)):
+                out += "FN:%d,%s\n" % ({"f": 1, "g": 5, "h": 9}.get(f, 3) if agree_starts else rng.choice([1, 5, 9]), f)
+                out += "FNDA:%d,%s\n" % (rng.choice([0, 1]), f)
             out += "end_of_record\n"
             continue
         fns = rng.sample(["f", "g", "h", "café"], rng.randrange(0, 3))
@@ -57,20 +64,23 @@ def lay_out(rng, root, blobs):
     groups = {}
     for i, b in enumerate(blobs):
         groups.setdefault(rng.choice(["d1", "d1/sub", "d2", "z1", "plain", "plain"]), []).append((i, b))
+    same_name = rng.random() < 0.4     # the same relative file name in several directories / the zip (different contents)
     for g, items in groups.items():
         if g.startswith("d"):
             d = os.path.join(root, g)
             os.makedirs(d, exist_ok=True)
-            for i, b in items:
-                open(os.path.join(d, "c%d.info" % i), "wb").write(b)
+            for n, (i, b) in enumerate(items):
+                nm = "cov/lcov.info" if (same_name and n == 0 and g in ("d1", "d2")) else "c%d.info" % i
+                os.makedirs(os.path.dirname(os.path.join(d, nm)), exist_ok=True)
+                open(os.path.join(d, nm), "wb").write(b)
             top = os.path.join(root, g.split("/")[0])
             if top not in args:
                 args.append(top)
         elif g == "z1":
             z = os.path.join(root, "z1.zip")
             with zipfile.ZipFile(z, "w") as zf:
-                for i, b in items:
-                    zf.writestr("in/c%d.info" % i, b)
+                for n, (i, b) in enumerate(items):
+                    zf.writestr("cov/lcov.info" if (same_name and n == 0) else "in/c%d.info" % i, b)
             args.append(z)
         else:
             for i, b in items:
